@@ -29,7 +29,7 @@
    (subtree root, number of its keys already visited): after trim (subtree.go:
    173-197) the pending stack is the chain of partially visited ancestors of
    the next key and is a function of that count; see [split]. *)
-From Verif Require Import Lib.Base Mkvs.Trie.
+From Verif Require Import Lib.Base Mkvs.Trie Gen.CkptConsts.
 
 Definition entry := (bytes * bytes)%type.
 
@@ -38,13 +38,18 @@ Definition entry := (bytes * bytes)%type.
 (* ------------------------------------------------------------------ *)
 (* leaf: 1 (entry tag) + 1 (prefix) + 2 (key length) + |k| + 4 (value length) + |v|
    (node.go:633-647, key.go:20-27, proof.go:176) *)
-Definition leaf_cost (k v : bytes) : N := 8 + N.of_nat (length k) + N.of_nat (length v).
+(* the field widths are read from the source: Gen/CkptConsts.v (depth_size = 2, value_length_size = 4) *)
+Definition leaf_cost (k v : bytes) : N :=
+  2 + depth_size + N.of_nat (length k) + value_length_size + N.of_nat (length v).
 (* internal node, V0 compact form: 1 (entry tag) + 1 (prefix) + 2 (label bit
    length) + |label bytes| + (1 for a nil leaf | the marshalled leaf)
    (node.go:408-427) *)
 Definition node_cost (lbl : path) (lf : option entry) : N :=
-  4 + N.of_nat (length (pack lbl)) +
-  match lf with None => 1 | Some (k, v) => 7 + N.of_nat (length k) + N.of_nat (length v) end.
+  2 + depth_size + N.of_nat (length (pack lbl)) +
+  match lf with
+  | None => 1
+  | Some (k, v) => 1 + depth_size + N.of_nat (length k) + value_length_size + N.of_nat (length v)
+  end.
 
 (* annotated key list: (entry, full, marg)
    full = estimate after a fresh builder has included every ancestor of the key
@@ -218,7 +223,7 @@ Fixpoint split_tasks (threads : nat) (n : nat) (tasks : list task) : list task :
       let (ts, stop) := split_pass threads [] tasks in
       if stop then ts else split_tasks threads n' ts
   end.
-Definition SPLIT_ITERS : nat := 10.     (* chunk.go:188 *)
+Definition SPLIT_ITERS : nat := N.to_nat split_iters.     (* chunk.go:188, read from the source *)
 
 (* lock-step rounds (chunk.go:160-181): split, one chunk per task, drop the
    finished tasks.  Result: the runs in chunk-index order and the tasks left
@@ -279,7 +284,7 @@ Definition round_sched (size : N) (sched : list nat) (ts : list task) : round_st
 (* ------------------------------------------------------------------ *)
 (* Restore (chunk.go:249-341, restorer.go)                              *)
 (* ------------------------------------------------------------------ *)
-Definition MAX_PROOF_DEPTH : nat := 128.   (* proof.go:20 *)
+Definition MAX_PROOF_DEPTH : nat := N.to_nat max_proof_depth.   (* proof.go:20, read from the source *)
 
 (* recomputed hash of a proof (proof.go:344-428) *)
 Fixpoint phash (H : bytes -> bytes) (p : ptree) : bytes :=
@@ -388,10 +393,10 @@ Fixpoint relabel (i : N) (t : tree) : tree * N :=
   end.
 Definition ck_in := (list entry * N * N)%type.
 Definition ck_out := list (list N).
-Definition run_ckpt (i : ck_in) : ck_out :=
-  let '(es, size, threads) := i in
-  let t := build es in
+Definition ckpt_out (size threads : N) (t : tree) : ck_out :=
   let t' := fst (relabel 0 t) in
   map (fun run => map (fun e => hd 0 (snd e)) (pleaves (chunk_of H0 (inrun run) t')))
       (chunk_runs size (N.to_nat threads) t).
+Definition run_ckpt (i : ck_in) : ck_out :=
+  let '(es, size, threads) := i in ckpt_out size threads (build es).
 Definition ck_eqb (a b : ck_out) : bool := list_eqb (list_eqb N.eqb) a b.
